@@ -137,9 +137,16 @@ def run_call(ctx, fname, mkargs, hl, extra_regions=None, max_worlds=16, max_step
     return [world_summary(ctx, w, hl) for w in ws]
 
 
+def region_len(ctx, f):
+    """Extent of the PDU region: what a caller allocating the published
+    header type gets (sizeof as folded by the compiler)."""
+    v = ctx.facts().get('verif_sizeof_' + f['format'])
+    return v if v else f['header_len']
+
+
 def getter_call(ctx, f, fld, path, null=False):
     """-> (function name, list of world records)"""
-    hl = f['header_len']
+    hl = region_len(ctx, f)
     pdu = NULL if null else Ptr(PDU, 0)
     if path == 'id':
         fname = f['get_field']
@@ -155,7 +162,7 @@ def getter_call(ctx, f, fld, path, null=False):
 
 
 def setter_call(ctx, f, fld, path, null=False):
-    hl = f['header_len']
+    hl = region_len(ctx, f)
     pdu = NULL if null else Ptr(PDU, 0)
     if path == 'id':
         fname = f['set_field']
@@ -270,8 +277,8 @@ def judge_getter(ctx, f, fld, path):
     for o in rec['oob']:
         if o[0] == PDU:
             issues.append(('C03', 'violation', base + ':extent',
-                           '%s: field %s.%s: %s, outside the %d-octet header'
-                           % (where, fmt, fld['name'], fmt_oob(o), f['header_len'])))
+                           '%s: field %s.%s: %s, outside the published %d-octet header type'
+                           % (where, fmt, fld['name'], fmt_oob(o), region_len(ctx, f))))
         else:
             issues.append(('C03', 'violation', base + ':extent-other',
                            '%s: field %s.%s: %s' % (where, fmt, fld['name'], fmt_oob(o))))
@@ -314,7 +321,7 @@ def judge_setter(ctx, f, fld, path):
         issues.append(('C02', 'violation', base + ':param-narrow',
                        '%s: value parameter has %d bits but field %s.%s has %d: value 2^%d cannot be stored'
                        % (where, P, fmt, fld['name'], w, P)))
-    exp = expected_set_mem(fld, max(P, w) if P >= w else P, f['header_len'], p['writes'])
+    exp = expected_set_mem(fld, P, f['header_len'], p['writes'])
     changed = []
     bad = None
     unk = None
@@ -362,8 +369,8 @@ def judge_setter(ctx, f, fld, path):
     for o in rec['oob']:
         if o[0] == PDU:
             issues.append(('C03', 'violation', base + ':extent',
-                           '%s: field %s.%s: %s, outside the %d-octet header'
-                           % (where, fmt, fld['name'], fmt_oob(o), f['header_len'])))
+                           '%s: field %s.%s: %s, outside the published %d-octet header type'
+                           % (where, fmt, fld['name'], fmt_oob(o), region_len(ctx, f))))
         else:
             issues.append(('C03', 'violation', base + ':extent-other',
                            '%s: field %s.%s: %s' % (where, fmt, fld['name'], fmt_oob(o))))
@@ -430,7 +437,7 @@ def judge_init(ctx, f, fname, extra_args=None, image=None, prop='C04', legacy=Fa
     issues = []
     out = {'fn': fname, 'issues': issues, 'format': fmt}
     args = lambda: [Ptr(PDU, 0)] + (extra_args() if extra_args else [])
-    recs = run_call(ctx, fname, args, hl)
+    recs = run_call(ctx, fname, args, region_len(ctx, f))
     out['steps'] = sum(r['steps'] for r in recs)
     if len(recs) != 1 or recs[0]['status'] != 'ok':
         issues.append((prop, 'undecided', base, '%s: %s' % (where, '; '.join(str(r['reason']) for r in recs))))
@@ -469,8 +476,8 @@ def judge_init(ctx, f, fname, extra_args=None, image=None, prop='C04', legacy=Fa
         issues.append((prop, 'violation', base + ':trailing',
                        '%s: initialiser writes octets %s beyond the %d-octet header' % (where, beyond, hl)))
     for o in rec['oob']:
-        issues.append(('C03', 'violation', base + ':extent', '%s: %s, outside the %d-octet header'
-                       % (where, fmt_oob(o), hl)))
+        issues.append(('C03', 'violation', base + ':extent', '%s: %s, outside the published %d-octet header type'
+                       % (where, fmt_oob(o), region_len(ctx, f))))
     fe = foreign_effects(rec)
     if fe:
         issues.append(('C16', 'violation', base + ':foreign',
